@@ -275,7 +275,7 @@ var specs = map[string]*CheckSpec{
 		Runs: []HarnessRun{concRun("ZZ_C07", "ZZ_C07N", "ZZ_C07Desc", "", 1, 1, true, nil, []int{0, 1}),
 			thoroughOnly(onlyShapes(concRun("ZZ_C07", "ZZ_C07N", "ZZ_C07Desc", "no crash, budget 2:", 2, 2, false, nil, []int{}), []int{0, 1, 2, 3}), "-p2")},
 		Bounds: func(tier string) map[string]any {
-			b := concBounds("two concurrent writes with one idempotency key (create/create, metadata/metadata, create/metadata, revert/revert; and create/create or metadata/metadata plus a third, key-less create whose transaction reference equals the key), then stop-or-crash, restart and a retry with the same key", true)(tier)
+			b := concBounds("two concurrent writes with one idempotency key (create/create, metadata/metadata, create/metadata, revert/revert; and create/create or metadata/metadata plus a third, key-less create whose transaction reference equals the key; keys of 255 and 256 bytes), then stop-or-crash, restart and a retry with the same key", true)(tier)
 			b["preemption_budget"] = "1 with the crash decision (both tiers); thorough adds a second pass with budget 2 and no crash over the four two-request scenarios (crash x budget 2 does not finish: > 60 min, > 20 GB)"
 			return b
 		},
@@ -287,7 +287,7 @@ var specs = map[string]*CheckSpec{
 		ID: "C11", Patterns: []string{cmdPkg}, NeedHelper: true, Instrument: true,
 		Runs: []HarnessRun{concRun("ZZ_C11", "ZZ_C11N", "ZZ_C11Desc", "", 1, 1, false, nil, []int{0}),
 			thoroughOnly(onlyShapes(concRun("ZZ_C11", "ZZ_C11N", "ZZ_C11Desc", "budget 2:", 2, 2, false, nil, []int{}), []int{0, 2}), "-p2")},
-		Bounds:      concBounds("2-3 concurrent creates sharing one reference (each may succeed or fail on funds), then a later create with the same reference", false),
+		Bounds:      concBounds("2-3 concurrent creates sharing one reference (plain, padded with white space, or with URL-ish characters; each may succeed or fail on funds), then a later create with the same reference", false),
 		Assumptions: concAssume, Encoded: cmdEncoded,
 		Rule:        "at most one committed transaction carries the reference; accepted requests = committed transactions; the later request is rejected with a conflict",
 		MaxPaths:    func(tier string) int { return 2000000 },
@@ -303,7 +303,7 @@ var specs = map[string]*CheckSpec{
 			if tier == "thorough" {
 				p = 2
 			}
-			return map[string]any{"requests": "17 populations of 2-3 requests with read/write sets (up to two accounts each) over accounts {x,y,z}, optionally one request cancelled by a separate thread at an arbitrary moment", "staged_releases": "8 populations of 3 requests whose holders release one at a time in a given order; at every rest point a pending request must conflict with a current holder", "preemptions": p, "threads": "one per request, one per cancellation, main"}
+			return map[string]any{"requests": "21 populations of 2-3 requests with read/write sets (up to two accounts each, an account possibly in both sets of one request) over accounts {x,y,z}, optionally one request cancelled by a separate thread at an arbitrary moment", "staged_releases": "8 populations of 3 requests whose holders release one at a time in a given order; at every rest point a pending request must conflict with a current holder", "preemptions": p, "threads": "one per request, one per cancellation, main"}
 		},
 		Assumptions: concStubs,
 		Encoded:     []string{"command.(*DefaultLocker).Lock", "command.(*lockIntent).tryLock/unlock", "collectionutils.(*LinkedList).Append/RemoveValue/RemoveFirst/FirstNode", "collectionutils.(*LinkedListNode).Remove/Next/Value"},
@@ -370,7 +370,7 @@ var specs = map[string]*CheckSpec{
 			{Pkg: v2Pkg, Dir: "internal/api/v2", Mod: "ledger", Fn: "ZZ_C18Args", Shapes: rangeShapes(2), Cfg: cmdCfg, Desc: harnessDesc(v2Pkg, "ZZ_C18ArgsDesc", ""), CanaryShapes: []int{0}},
 			{Pkg: v2Pkg, Dir: "internal/api/v2", Mod: "ledger", Fn: "ZZ_C18Two", Shapes: rangeShapes(2), Cfg: cmdCfg, Desc: harnessDesc(v2Pkg, "ZZ_C18TwoDesc", ""), CanaryShapes: []int{0}}},
 		Bounds: func(tier string) map[string]any {
-			return map[string]any{"elements": "1..3 through ProcessBulk; 1..2 (thorough 3) through bulkHandler with the continueOnFailure parameter spelled true/1/TRUE or absent/false/0", "actions": "the four known actions and an unknown one, chosen per element", "outcomes": "success or failure per element (symbolic Bool), three error classes", "continueOnFailure": "symbolic Bool", "element_arguments": "bulks of 2..3 ADD_METADATA / DELETE_METADATA elements (accounts and transactions with arbitrary ids; metadata and key present or absent per element): each reaches the engine with its own arguments", "two_requests": "two bulks of 1..2 elements one after the other through bulkHandler, the second omitting idempotency keys the first supplied", "payloads": "concrete well-formed JSON per action (decoded by the JSON model); malformed payloads are outside this check"}
+			return map[string]any{"elements": "1..3 through ProcessBulk; 1..2 (thorough 3) through bulkHandler with the continueOnFailure parameter absent or an arbitrary alphanumeric string of 1..4 bytes (it asks for the flag exactly when it spells true in any case, or 1)", "actions": "the four known actions and an unknown one, chosen per element", "outcomes": "success or failure per element (symbolic Bool), three error classes", "continueOnFailure": "symbolic Bool", "element_arguments": "bulks of 2..3 ADD_METADATA / DELETE_METADATA elements (accounts and transactions with arbitrary ids; metadata and key present or absent per element): each reaches the engine with its own arguments", "two_requests": "two bulks of 1..2 elements one after the other through bulkHandler, the second omitting idempotency keys the first supplied", "payloads": "concrete well-formed JSON per action (decoded by the JSON model); malformed payloads are outside this check"}
 		},
 		Assumptions: []string{"backend.Ledger is a recording stub whose four write methods succeed or fail as the symbolic inputs say", "encoding/json modelled over ropes", "the HTTP request is built by the harness (body = JSON model of the Bulk value, recording ResponseWriter); chi routing is not executed"},
 		Encoded:     []string{"v2.bulkHandler", "v2.ProcessBulk", "libs/api.QueryParamBool", "ledger.(*TransactionRequest).ToRunScript", "ledger.TxToScriptData", "command.IsSaveMetaError/IsDeleteMetaError", "engine.IsCommandError", "machine.IsInsufficientFundError"},
@@ -410,7 +410,7 @@ var specs = map[string]*CheckSpec{
 		ID: "C13", Patterns: []string{cmdPkg}, NeedHelper: true,
 		Runs:   []HarnessRun{commandRun("ZZ_C13", countShapes(cmdPkg, "ZZ_C13N"), harnessDesc(cmdPkg, "ZZ_C13Desc", ""), []int{0, 3})},
 		Bounds: func(tier string) map[string]any {
-			return map[string]any{"log_kinds": "every write kind x target type the commander can emit (7)", "ids_amounts": "symbolic (transaction ids < 2^62), plus three concrete ids above 2^53 (not representable as float64)", "metadata": "one entry, nil, empty, two entries with an empty value (arbitrary Unicode keys/values are outside the claim)", "after_preview": "each write kind also right after a preview of the same request", "timestamps": "concrete (RFC3339Nano formatting of arbitrary instants is outside the claim)"}
+			return map[string]any{"log_kinds": "every write kind x target type the commander can emit (7)", "ids_amounts": "symbolic (transaction ids < 2^62), plus three concrete ids above 2^53 (not representable as float64)", "metadata": "one entry, nil, empty, two entries with an empty value (arbitrary Unicode keys/values are outside the claim)", "after_preview": "each write kind also right after a preview of the same request", "timestamps": "the engine clock, plus six client-supplied timestamps at the edges (zone offsets at the year limits, sub-microsecond fractions that round across a year, 1969, year 1) on both create kinds; formatting of arbitrary instants is outside the claim"}
 		},
 		Assumptions: cmdStubs, Encoded: append([]string{"ledger.HydrateLog", "ledger.(*ChainedLog).UnmarshalJSON", "ledger.(*SetMetadataLogPayload).UnmarshalJSON", "ledger.LogType.MarshalJSON/UnmarshalJSON", "ledger.LogTypeFromString", "ledger.Time.MarshalJSON/UnmarshalJSON"}, cmdEncoded...),
 		Rule: "each log the write path persists is encoded, decoded, re-encoded (text equality as ropes) and its hash recomputed from the round-tripped entry and the predecessor",
@@ -436,7 +436,12 @@ var specs = map[string]*CheckSpec{
 	},
 	"C16": {
 		ID: "C16", Patterns: []string{cmdPkg}, NeedHelper: true, Instrument: true,
-		Runs: []HarnessRun{commandRun("ZZ_C16", rangeShapes(21), kindModeDesc, []int{0, 9}),
+		Runs: []HarnessRun{commandRun("ZZ_C16", rangeShapes(27), func(s *Session, i int) string {
+			if i >= 21 {
+				return []string{"revert", "set transaction metadata", "delete transaction metadata"}[(i-21)/2] + " of a transaction that does not exist" + []string{"", ", with an idempotency key"}[(i-21)%2]
+			}
+			return kindModeDesc(s, i)
+		}, []int{0, 9}),
 			concRun("ZZ_C16Conc", "ZZ_C16ConcN", "ZZ_C16ConcDesc", "", 1, 2, false, nil, []int{0})},
 		Bounds: func(tier string) map[string]any {
 			b := cmdBounds(tier)
